@@ -42,7 +42,7 @@ class Acc:
         self.sets.setdefault(name, set()).add(item)
 
     def fail(self, case, msg, sig, oracle=None):
-        if len(self.failures) < 200:
+        if len(self.failures) < 200 or ('failsig:' + sig) not in self.counters:
             self.failures.append({'case': case, 'msg': msg, 'sig': sig, 'oracle': oracle})
         self.count('failures_total')
         self.count('failsig:' + sig)
